@@ -9,7 +9,7 @@ def _bt_partition_laws(ctx):
     from pyvc import bounded_text
     return bounded_text.partition_laws(ctx)
 
-BOUNDED = [_bt_partition_laws, hub_bounded('C17-html-hub', ['forms', 'ranges', 'dir', 'iframe', 'identical', 'basic', 'svg5', 'xforms'], ['html'])]
+BOUNDED = [_bt_partition_laws, hub_bounded('C17-html-hub', ['forms', 'ranges', 'dir', 'iframe', 'identical', 'basic', 'svg5', 'xforms', 'radio-order'], ['html'])]
 TRUSTED = [A_PY, A_BS4, OPAQUE_NOTE, A_INDET, A_SINGLE, A_BIDI]
 ASSUMPTIONS = TRUSTED
 EXPLANATION = ('Bounded: the partition laws as set identities and every HTML state pseudo-class against the reference definitions (first submit button per form, radio groups '
